@@ -192,6 +192,12 @@ func applyOp(st *lsp.State, op lspOp) (reply string, published []any, panicMsg s
 			r = lsp.Handle(lspReq("textDocument/definition", J{"textDocument": td, "position": J{"line": p[0], "character": p[1]}}), st)
 		case "symbols":
 			r = lsp.Handle(lspReq("textDocument/documentSymbol", J{"textDocument": td}), st)
+		case "other":
+			if op.P == 1 {
+				r = lsp.Handle(lspReq("initialize", J{"processId": 1, "rootUri": nil, "capabilities": J{}}), st)
+			} else {
+				r = lsp.Handle(lspReq("textDocument/didSave", J{"textDocument": td, "text": "send [USD 1] ("}), st)
+			}
 		}
 	})
 	if pm != "" {
